@@ -68,6 +68,10 @@ pub fn set_dial_factory(factory: Option<DialFactory>) {
 }
 
 pub(crate) fn intercepts(host: &url::Host<&str>, port: u16, scheme: &str, info: &ConnectInfo) -> bool {
+    if scheme != "http" && scheme != "https" {
+        // other schemes must keep failing exactly as they do without the hook
+        return false;
+    }
     let mut factory = match FACTORY.with(|f| f.borrow_mut().take()) {
         Some(factory) => factory,
         None => return false,
